@@ -97,13 +97,16 @@ func InlineNewHelpers(pkgs []*packages.Package, round int) (map[string][]byte, [
 		}
 		// candidates
 		type cand struct {
-			decl  *ast.FuncDecl
-			obj   *types.Func
+			body  *ast.BlockStmt
+			sig   *types.Signature
+			obj   types.Object // *types.Func of a new helper, or the *types.Var a call-only local closure is bound to
 			file  *ast.File
 			short string
+			lit   *ast.FuncLit // closures only
+			def   ast.Stmt     // closures only: the statement `name := func(...) {...}`
 		}
 		var cands []*cand
-		candByObj := map[*types.Func]*cand{}
+		candByObj := map[types.Object]*cand{}
 		for _, f := range pkg.Syntax {
 			for _, d := range f.Decls {
 				fd, ok := d.(*ast.FuncDecl)
@@ -111,7 +114,7 @@ func InlineNewHelpers(pkgs []*packages.Package, round int) (map[string][]byte, [
 					continue
 				}
 				short := astShortName(pkg, fd)
-				if short == "" || KnownFunc(short) {
+				if short == "" || KnownFunc(short) || os.Getenv("NXCHECK_NOHELPERINLINE") != "" {
 					continue
 				}
 				obj := pkg.TypesInfo.Defs[fd.Name].(*types.Func)
@@ -119,24 +122,61 @@ func InlineNewHelpers(pkgs []*packages.Package, round int) (map[string][]byte, [
 				if sig.TypeParams() != nil || sig.RecvTypeParams() != nil || sig.Variadic() {
 					continue
 				}
-				if !bodyInlinable(fd, obj, pkg.TypesInfo) {
+				if !bodyInlinable(fd.Body, obj, pkg.TypesInfo) {
 					continue
 				}
-				c := &cand{fd, obj, f, short}
+				c := &cand{body: fd.Body, sig: sig, obj: obj, file: f, short: short}
 				cands = append(cands, c)
 				candByObj[obj] = c
+			}
+		}
+		// local closures that are bound once to a variable and only ever called directly: a helper written as a closure.
+		// They are inlined in every tree, the unchanged one included, so that "closure", "method" and "inlined" forms
+		// of one helper normalise to the same program.
+		if os.Getenv("NXCHECK_NOCLOSUREINLINE") == "" {
+			for _, f := range pkg.Syntax {
+				for _, d := range f.Decls {
+					fd, ok := d.(*ast.FuncDecl)
+					if !ok || fd.Body == nil || !libRel(relPkg(pkg.Types)) {
+						continue
+					}
+					ast.Inspect(fd.Body, func(n ast.Node) bool {
+						as, ok := n.(*ast.AssignStmt)
+						if !ok || as.Tok != token.DEFINE || len(as.Lhs) != 1 || len(as.Rhs) != 1 {
+							return true
+						}
+						id, ok := as.Lhs[0].(*ast.Ident)
+						lit, ok2 := as.Rhs[0].(*ast.FuncLit)
+						if !ok || !ok2 || id.Name == "_" {
+							return true
+						}
+						v, _ := pkg.TypesInfo.Defs[id].(*types.Var)
+						sig, _ := pkg.TypesInfo.TypeOf(lit).(*types.Signature)
+						if v == nil || sig == nil || sig.Variadic() || !bodyInlinable(lit.Body, v, pkg.TypesInfo) {
+							return true
+						}
+						c := &cand{body: lit.Body, sig: sig, obj: v, file: f, short: astShortName(pkg, fd) + "·" + id.Name, lit: lit, def: as}
+						cands = append(cands, c)
+						candByObj[v] = c
+						return true
+					})
+				}
 			}
 		}
 		if len(cands) == 0 {
 			continue
 		}
 		// leaf candidates only in this round: a candidate whose body calls another candidate waits
-		leaf := map[*types.Func]bool{}
+		leaf := map[types.Object]bool{}
 		for _, c := range cands {
 			isLeaf := true
-			ast.Inspect(c.decl.Body, func(n ast.Node) bool {
+			ast.Inspect(c.body, func(n ast.Node) bool {
 				if id, ok := n.(*ast.Ident); ok {
-					if o, ok := pkg.TypesInfo.Uses[id].(*types.Func); ok && candByObj[o] != nil {
+					if o := pkg.TypesInfo.Uses[id]; o != nil && candByObj[o] != nil {
+						isLeaf = false
+					}
+					// a closure candidate defined inside this body moves with it: wait for it to be inlined first
+					if o := pkg.TypesInfo.Defs[id]; o != nil && candByObj[o] != nil {
 						isLeaf = false
 					}
 				}
@@ -145,8 +185,8 @@ func InlineNewHelpers(pkgs []*packages.Package, round int) (map[string][]byte, [
 			leaf[c.obj] = isLeaf
 		}
 		// uses of each candidate
-		sites := map[*types.Func][]*inlineSite{}
-		rejected := map[*types.Func]string{}
+		sites := map[types.Object][]*inlineSite{}
+		rejected := map[types.Object]string{}
 		for _, f := range pkg.Syntax {
 			fname := pkg.Fset.PositionFor(f.Pos(), false).Filename
 			parents := map[ast.Node]ast.Node{}
@@ -167,8 +207,8 @@ func InlineNewHelpers(pkgs []*packages.Package, round int) (map[string][]byte, [
 				if !ok {
 					return true
 				}
-				o, ok := pkg.TypesInfo.Uses[id].(*types.Func)
-				if !ok || candByObj[o] == nil {
+				o := pkg.TypesInfo.Uses[id]
+				if o == nil || candByObj[o] == nil {
 					return true
 				}
 				site, why := classifyUse(id, parents, pkg.TypesInfo)
@@ -200,7 +240,9 @@ func InlineNewHelpers(pkgs []*packages.Package, round int) (map[string][]byte, [
 				continue
 			}
 			if why, bad := rejected[c.obj]; bad {
-				log = append(log, fmt.Sprintf("not inlined: %s (%s)", c.short, why))
+				if c.lit == nil || !strings.HasPrefix(why, "used as a value") { // a closure that is passed on is simply not a helper
+					log = append(log, fmt.Sprintf("not inlined: %s (%s)", c.short, why))
+				}
 				continue
 			}
 			ss := sites[c.obj]
@@ -220,7 +262,7 @@ func InlineNewHelpers(pkgs []*packages.Package, round int) (map[string][]byte, [
 					break
 				}
 				counter++
-				es, err := buildInline(pkg, c.decl, c.obj, c.file, s, counter, getSrc)
+				es, err := buildInline(pkg, c.body, c.sig, c.lit, c.file, s, counter, getSrc)
 				if err != nil {
 					ok = false
 					log = append(log, fmt.Sprintf("not inlined: %s (%v)", c.short, err))
@@ -239,7 +281,16 @@ func InlineNewHelpers(pkgs []*packages.Package, round int) (map[string][]byte, [
 			for _, p := range pending {
 				edits[p.fname] = append(edits[p.fname], p.e)
 			}
-			dead = append(dead, c.short)
+			if c.def != nil {
+				// the closure's definition goes (its variable would be unused); line structure is kept
+				fname := pkg.Fset.PositionFor(c.file.Pos(), false).Filename
+				if b := getSrc(fname); b != nil {
+					st, en := pkg.Fset.PositionFor(c.def.Pos(), false).Offset, pkg.Fset.PositionFor(c.def.End(), false).Offset
+					edits[fname] = append(edits[fname], edit{st, en, strings.Repeat("\n", strings.Count(string(b[st:en]), "\n"))})
+				}
+			} else {
+				dead = append(dead, c.short)
+			}
 			for _, s := range ss {
 				log = append(log, fmt.Sprintf("inlined %s into %s at %s", c.short, s.inFunc, pkg.Fset.Position(s.call.Pos())))
 			}
@@ -292,7 +343,7 @@ func readFileOverlay(pkg *packages.Package, fname string) ([]byte, error) {
 }
 
 // bodyInlinable: no defer, no recover, no direct recursion, no goto; labels are renamed.
-func bodyInlinable(fd *ast.FuncDecl, obj *types.Func, info *types.Info) bool {
+func bodyInlinable(body *ast.BlockStmt, obj types.Object, info *types.Info) bool {
 	ok := true
 	var visit func(n ast.Node, inLit bool)
 	visit = func(n ast.Node, inLit bool) {
@@ -324,8 +375,7 @@ func bodyInlinable(fd *ast.FuncDecl, obj *types.Func, info *types.Info) bool {
 			return true
 		})
 	}
-	visit(fd.Body, false)
-	// result parameters must not be shadowed trickily; named results are supported
+	visit(body, false)
 	return ok
 }
 
@@ -525,10 +575,9 @@ func simpleLhs(e ast.Expr) bool {
 }
 
 // buildInline produces the edit replacing site.stmt by prelude + inlined body + the statement with the call replaced.
-func buildInline(pkg *packages.Package, fd *ast.FuncDecl, obj *types.Func, hfile *ast.File, s *inlineSite, n int, getSrc func(string) []byte) ([]edit, error) {
+func buildInline(pkg *packages.Package, hbody *ast.BlockStmt, sig *types.Signature, lit *ast.FuncLit, hfile *ast.File, s *inlineSite, n int, getSrc func(string) []byte) ([]edit, error) {
 	fset := pkg.Fset
 	info := pkg.TypesInfo
-	sig := obj.Type().(*types.Signature)
 	csrc := getSrc(s.fname)
 	hname := fset.PositionFor(hfile.Pos(), false).Filename
 	hsrc := getSrc(hname)
@@ -602,7 +651,7 @@ func buildInline(pkg *packages.Package, fd *ast.FuncDecl, obj *types.Func, hfile
 		return nil, fmt.Errorf("no scope at call site")
 	}
 	var shadow error
-	ast.Inspect(fd.Body, func(m ast.Node) bool {
+	ast.Inspect(hbody, func(m ast.Node) bool {
 		id, ok := m.(*ast.Ident)
 		if !ok {
 			return true
@@ -610,6 +659,16 @@ func buildInline(pkg *packages.Package, fd *ast.FuncDecl, obj *types.Func, hfile
 		o := info.Uses[id]
 		if o == nil {
 			return true
+		}
+		// a closure's captured variables (declared in the enclosing function, outside the literal) must be the same
+		// variables at the call site
+		if lit != nil {
+			if v, isVar := o.(*types.Var); isVar && !v.IsField() && o.Pkg() == pkg.Types && o.Parent() != pkg.Types.Scope() && (o.Pos() < lit.Pos() || o.Pos() >= lit.End()) {
+				if _, found := callScope.LookupParent(id.Name, s.call.Pos()); found != o {
+					shadow = fmt.Errorf("captured variable %s is not the same variable at the call site", id.Name)
+				}
+				return true
+			}
 		}
 		switch oo := o.(type) {
 		case *types.PkgName:
@@ -742,12 +801,12 @@ func buildInline(pkg *packages.Package, fd *ast.FuncDecl, obj *types.Func, hfile
 			return true
 		})
 	}
-	walk(fd.Body)
+	walk(hbody)
 	if rerr != nil {
 		return nil, rerr
 	}
 	// a return nested in the replaced text of another return cannot happen (returns hold expressions only, FuncLits skipped)
-	bstart, bend := off(fd.Body.Lbrace)+1, off(fd.Body.Rbrace)
+	bstart, bend := off(hbody.Lbrace)+1, off(hbody.Rbrace)
 	body := append([]byte(nil), hsrc[bstart:bend]...)
 	sort.Slice(reps, func(i, j int) bool { return reps[i].start > reps[j].start })
 	for _, r := range reps {
@@ -768,7 +827,7 @@ func buildInline(pkg *packages.Package, fd *ast.FuncDecl, obj *types.Func, hfile
 			fmt.Fprintf(&b, "var %s %s; _ = %s; ", nm, typeStr(sig.Results().At(i).Type()), nm)
 		}
 	}
-	b.WriteString(lineDir(fd.Body.Lbrace))
+	b.WriteString(lineDir(hbody.Lbrace))
 	// keep the body's first line aligned with the opening brace's line
 	b.Write(body)
 	if len(rtmps) > 0 && nret == 0 {
@@ -795,3 +854,8 @@ func buildInline(pkg *packages.Package, fd *ast.FuncDecl, obj *types.Func, hfile
 
 // keep the compiler quiet about helpers used only in some build configurations
 var _ = bytes.Equal
+
+// libRel: packages of the library proper (examples, the acceptance tests and the daemon carry no obligations).
+func libRel(rel string) bool {
+	return rel != "" && !strings.HasPrefix(rel, "examples") && !strings.HasPrefix(rel, "aat") && !strings.HasPrefix(rel, "nexusd") && rel != "test"
+}
